@@ -2,10 +2,34 @@
    Only the directives of ExtrOcamlBasic and ExtrOCamlFloats are used; Z/N/nat/positive stay
    the extracted datatypes. *)
 From Coq Require Import ZArith List Floats.
-From Coq Require Import ExtrOcamlBasic ExtrOCamlFloats.
-From SC Require Import Num Vec3 Kernel.
+From Coq Require Import ExtrOcamlBasic ExtrOCamlFloats ExtrOCamlInt63.
+From SC Require Import Num Vec3 Kernel FloatIO Grid Integrator.
 
 Definition kernel_f := kernel NumF.
 
+(* C20: grids over int objects *)
+Definition grid_dims_f := update_dimensions NumF f_ceilZ f_eps.
+Definition grid_idx3_f := idx3 NumF f_floorZ.
+Definition grid_in_range_f := @in_range float.
+Definition grid_flat_f := @flat float.
+Definition grid_empty_f := @empty_store float Z.
+Definition grid_place_f := @place float NumF f_floorZ Z.
+Definition grid_nbh_f := @neighborhood float NumF f_floorZ Z.
+Definition grid_content_f := @grid_content float Z.
+Definition grid_content_at_f := @content Z.
+Definition grid3_empty_f := @empty_store3 float Z.
+Definition grid3_place_f := @place3 float NumF f_floorZ Z.
+Definition grid3_nbh_f := @neighborhood3 float NumF f_floorZ Z.
+Definition grid3_content_f := @grid_content3 float Z.
+Definition grid3_content_at_f := @content3 Z.
+
+
+(* C03: integrator *)
+Definition integ_steps_f := @steps float NumF.
+Definition integ_node_mass_f := @node_mass float NumF.
+
 Extraction Language OCaml.
-Extraction "model.ml" NumF kernel_f.
+Extraction "model.ml" NumF kernel_f
+  grid_dims_f grid_idx3_f grid_in_range_f grid_flat_f grid_empty_f grid_place_f grid_nbh_f grid_content_f grid_content_at_f
+  grid3_empty_f grid3_place_f grid3_nbh_f grid3_content_f grid3_content_at_f
+  integ_steps_f integ_node_mass_f.
